@@ -65,10 +65,159 @@ pub struct Case<'a> {
     pub tier: Tier,
 }
 
+thread_local! {
+    /// Set by the history pass: the case evaluated on this thread immediately before the current one.
+    static HIST_AFTER: std::cell::Cell<Option<u64>> = std::cell::Cell::new(None);
+}
+
 impl<'a> Case<'a> {
     pub fn json(&self, input: Value) -> Value {
-        json!({"space": self.space, "idx": self.idx, "tier": self.tier.name(), "input": input})
+        match HIST_AFTER.with(|h| h.get()) {
+            // a violation seen in the history pass is replayed with its predecessor evaluated first
+            Some(p) => json!({"space": self.space, "idx": self.idx, "tier": self.tier.name(), "input": input, "after": [p]}),
+            None => json!({"space": self.space, "idx": self.idx, "tier": self.tier.name(), "input": input}),
+        }
     }
+}
+
+/// Values of one coordinate (size d, current value c) used as predecessors: all of them when d <= 10, otherwise the
+/// nearest two on each side, the first three and the last two.
+fn neighbour_values(c: u64, d: u64) -> Vec<u64> {
+    let mut v: Vec<u64> = if d <= 10 {
+        (0..d).collect()
+    } else {
+        let mut v = vec![0, 1, 2, d - 2, d - 1];
+        for k in 1..=2u64 {
+            if c >= k {
+                v.push(c - k);
+            }
+            if c + k < d {
+                v.push(c + k);
+            }
+        }
+        v
+    };
+    v.retain(|x| *x != c);
+    v.sort();
+    v.dedup();
+    v
+}
+
+static HIST_SPENT_MS: std::sync::atomic::AtomicU64 = std::sync::atomic::AtomicU64::new(0);
+
+pub struct HistStats {
+    pub bases: u64,
+    pub pairs: u64,
+    pub step: u64,
+    pub complete: bool,
+}
+
+/// E1h — call histories of length two across cases. The forward sweep evaluates case i right after case i-1 only, so
+/// library state that outlives a call (a static or thread-local memo, a reused buffer) is exercised only by
+/// predecessors that differ in the fastest-varying coordinate. Here, for every base case b of a stated subset (all
+/// cases, or every `step`-th when the pair budget is smaller than the space) and every case p that differs from b in
+/// exactly one coordinate (any coordinate; values per `neighbour_values`), p and then b are evaluated back to back on
+/// one thread. The oracle is the cases' own: the reference does not know the order. Coordinates are learned from the
+/// first odometer decoding the base case performs (engine::coords); a space that decodes none is treated as one
+/// coordinate. Only violations and pair counts are kept from this pass.
+pub fn history_pass(ctx: &Ctx, sp: &Space, forward_s: f64) -> (Acc, HistStats) {
+    let n = sp.size;
+    let budget: u64 = std::env::var("VERIF_HIST_PAIRS").ok().and_then(|x| x.parse().ok()).unwrap_or(if ctx.tier.is_thorough() { 60_000 } else { 2_000 });
+    let mut stats = HistStats { bases: 0, pairs: 0, step: 1, complete: true };
+    if n < 2 || budget == 0 {
+        return (Acc::new(), stats);
+    }
+    // about 12 predecessors per base; a step that shares no factor with the space size visits every value of every coordinate
+    let want_bases = (budget / 12).max(1);
+    let mut step = ((n + want_bases - 1) / want_bases).max(1);
+    if step > 1 {
+        fn gcd(a: u64, b: u64) -> u64 {
+            if b == 0 {
+                a
+            } else {
+                gcd(b, a % b)
+            }
+        }
+        while gcd(step, n) != 1 {
+            step += 1;
+        }
+    }
+    stats.step = step;
+    let nbases = (n + step - 1) / step;
+    // wall budget: per space a fraction of what the forward sweep took, and per property a total (HIST_SPENT)
+    let total_cap = if ctx.tier.is_thorough() { 600.0 } else { 12.0 };
+    let spent = HIST_SPENT_MS.load(std::sync::atomic::Ordering::Relaxed) as f64 / 1000.0;
+    let per_eval = forward_s * ctx.threads as f64 / n as f64;
+    let cap_s = (if ctx.tier.is_thorough() { (2.0 * forward_s).max(10.0) } else { (0.5 * forward_s).clamp(0.7, 3.0) }).min(total_cap - spent);
+    if cap_s <= 0.05 || per_eval * 3.0 > cap_s {
+        // not even one (base, predecessor, base) triple fits: say so instead of starting
+        stats.complete = false;
+        return (Acc::new(), stats);
+    }
+    let cap = std::time::Duration::from_secs_f64(cap_s);
+    let t0 = std::time::Instant::now();
+    let pairs = std::sync::atomic::AtomicU64::new(0);
+    let capped = std::sync::atomic::AtomicBool::new(false);
+    let (mut acc, done) = par_range(ctx, nbases, |t, acc| {
+        if capped.load(std::sync::atomic::Ordering::Relaxed) {
+            return;
+        }
+        if t0.elapsed() > cap {
+            capped.store(true, std::sync::atomic::Ordering::Relaxed);
+            return;
+        }
+        let b = t * step;
+        let base = Case { space: &sp.name, idx: b, tier: ctx.tier };
+        let mut scratch = Acc::new();
+        HIST_AFTER.with(|h| h.set(None));
+        let _ = crate::engine::take_first_coords();
+        (sp.eval)(&base, &mut scratch);
+        let (local, dims) = match crate::engine::take_first_coords() {
+            Some((li, d)) if li <= b && d.iter().all(|x| *x > 0) && d.iter().product::<u64>() <= n && b - li + d.iter().product::<u64>() <= n && li < d.iter().product::<u64>() => (li, d),
+            _ => (b, vec![n]),
+        };
+        let offset = b - local;
+        let cs = crate::engine::coords(local, &dims);
+        let _ = crate::engine::take_first_coords();
+        let mut weight = vec![1u64; dims.len()];
+        for j in (0..dims.len().saturating_sub(1)).rev() {
+            weight[j] = weight[j + 1] * dims[j + 1];
+        }
+        for j in 0..dims.len() {
+            for v in neighbour_values(cs[j], dims[j]) {
+                let p = offset + local - cs[j] * weight[j] + v * weight[j];
+                if p >= n || p == b {
+                    continue;
+                }
+                if t0.elapsed() > cap {
+                    capped.store(true, std::sync::atomic::Ordering::Relaxed);
+                    break;
+                }
+                let pred = Case { space: &sp.name, idx: p, tier: ctx.tier };
+                HIST_AFTER.with(|h| h.set(None));
+                (sp.eval)(&pred, &mut scratch);
+                HIST_AFTER.with(|h| h.set(Some(p)));
+                let mut one = Acc::new();
+                (sp.eval)(&base, &mut one);
+                HIST_AFTER.with(|h| h.set(None));
+                let mut vo = Acc::new();
+                vo.violations = std::mem::take(&mut one.violations);
+                acc.merge(vo);
+                pairs.fetch_add(1, std::sync::atomic::Ordering::Relaxed);
+            }
+        }
+        let _ = crate::engine::take_first_coords();
+    });
+    HIST_SPENT_MS.fetch_add(t0.elapsed().as_millis() as u64, std::sync::atomic::Ordering::Relaxed);
+    stats.bases = done;
+    stats.pairs = pairs.load(std::sync::atomic::Ordering::Relaxed);
+    stats.complete = done >= nbases && !capped.load(std::sync::atomic::Ordering::Relaxed);
+    // keep only what this pass is for
+    let mut out = Acc::new();
+    out.violations = std::mem::take(&mut acc.violations);
+    out.bump("history_pairs(predecessor_then_case)", stats.pairs);
+    out.bump("history_base_cases", stats.bases);
+    (out, stats)
 }
 
 pub struct Space {
@@ -128,8 +277,27 @@ pub fn run_spaces_for(id: &str, ctx: &Ctx, report: &mut Report, spaces: Vec<Spac
         if std::env::var("VERIF_VERBOSE").is_ok() {
             crate::out::line(&format!("  space {} size {} done {} in {:.1}s{}", sp.name, sp.size, res.1, t0.elapsed().as_secs_f64(), if sp.isolated { " (isolated)" } else { "" }));
         }
+        let complete = res.1 >= sp.size;
         report.add_space(&sp.name, sp.size, res);
+        if !sp.isolated && complete {
+            add_history(ctx, report, &sp, t0.elapsed().as_secs_f64());
+        }
     }
+}
+
+fn add_history(ctx: &Ctx, report: &mut Report, sp: &Space, forward_s: f64) {
+    let t1 = std::time::Instant::now();
+    let (hacc, st) = history_pass(ctx, sp, forward_s);
+    if st.pairs == 0 && st.bases == 0 && st.complete {
+        return;
+    }
+    if std::env::var("VERIF_VERBOSE").is_ok() {
+        crate::out::line(&format!("    history pass: {} bases (every {}th case), {} pairs, complete={} in {:.1}s", st.bases, st.step, st.pairs, st.complete, t1.elapsed().as_secs_f64()));
+    }
+    if let Some(last) = report.spaces.last_mut() {
+        last["history_pass"] = json!({"base_cases": st.bases, "base_step": st.step, "pairs_predecessor_then_case": st.pairs, "complete_within_its_bound": st.complete});
+    }
+    report.acc.merge(hacc);
 }
 
 #[allow(dead_code)]
@@ -144,7 +312,11 @@ pub fn run_spaces(ctx: &Ctx, report: &mut Report, spaces: Vec<Space>) {
         if std::env::var("VERIF_VERBOSE").is_ok() {
             crate::out::line(&format!("  space {} size {} done {} in {:.1}s", sp.name, sp.size, res.1, t0.elapsed().as_secs_f64()));
         }
+        let complete = res.1 >= sp.size;
         report.add_space(&sp.name, sp.size, res);
+        if complete {
+            add_history(ctx, report, &sp, t0.elapsed().as_secs_f64());
+        }
     }
 }
 
@@ -190,6 +362,14 @@ pub fn replay_spaces(mk: fn(Tier) -> Vec<Space>, case: &Value) -> Vec<(String, S
             if w > 0 {
                 let mut scratch = Acc::new();
                 for j in idx.saturating_sub(w)..idx {
+                    let c = Case { space: &sp.name, idx: j, tier };
+                    let _ = crate::engine::guard(|| (sp.eval)(&c, &mut scratch));
+                }
+            }
+            // a case recorded by the history pass names the case(s) evaluated right before it on the same thread
+            if let Some(after) = case.get("after").and_then(|a| a.as_array()) {
+                let mut scratch = Acc::new();
+                for j in after.iter().filter_map(|x| x.as_u64()).filter(|j| *j < sp.size) {
                     let c = Case { space: &sp.name, idx: j, tier };
                     let _ = crate::engine::guard(|| (sp.eval)(&c, &mut scratch));
                 }
